@@ -18,6 +18,7 @@ func genAll() {
 	genPoints()
 	genClone()
 	genData()
+	genApply()
 }
 
 // ---------------------------------------------------------------------------------
